@@ -74,12 +74,22 @@ def _build_inverse():
 INV_K, INV_V = _build_inverse()
 
 
+class BadValue(Exception):
+    """the cache handed out an object that was never put in (e.g. the _MISSING sentinel)"""
+
+
 def ktok(o):
-    return INV_K[repr(o)]
+    try:
+        return INV_K[repr(o)]
+    except KeyError:
+        raise BadValue(repr(o))
 
 
 def vtok(o):
-    return INV_V[repr(o)]
+    try:
+        return INV_V[repr(o)]
+    except KeyError:
+        raise BadValue(repr(o))
 
 
 EXN_CODES = {"KeyError": "KeyError", "IndexError": "IndexError", "TypeError": "TypeError",
@@ -270,7 +280,7 @@ def _probe(cache, mx):
             old = now
         post = len(cache)
     except Exception as e:           # the cache is unusable: Coq rejects any Some exn
-        exn = exn_code(e)
+        exn = "Other9" if isinstance(e, BadValue) else exn_code(e)
         post = 0
     return {"items": items, "len": ln, "probe": steps, "probe_exn": exn, "post_len": post}
 
@@ -286,6 +296,13 @@ def _cacheutils():
         repo = os.environ.get("VERIF_REPO", "/repo")
         assert os.path.realpath(cu.__file__).startswith(os.path.realpath(repo) + os.sep), \
             "boltons imported from %s, not from %s" % (cu.__file__, repo)
+        # CPython 3.12: the first traced thread of a process gets no opcode events (seen: count 0);
+        # warm the tracing machinery up so that opcode positions are the same in every process
+        _CU["warm"] = True
+        warm = {"kind": "LRU", "max": 2, "on_miss": 1, "init": [[0, 1]],
+                "threads": [[["set", 1, 2], ["get", 2]], [["get", 0]]]}
+        for _ in range(2):
+            _one_run(warm, [(0, 5, 1)], 0)
     return _CU["m"], _CU["file"]
 
 
@@ -309,8 +326,8 @@ def _one_run(case, plan, start):
             sched.opidx[tid] = i
             try:
                 r = _do_op(cache, op)
-            except c03_sched.Abort:
-                raise
+            except BadValue:
+                r = ["bad"]
             except Exception as e:
                 r = ["exn", exn_code(e)]
             results[tid].append(r)
